@@ -500,16 +500,36 @@ def run : World → List Op → World × List Snap
     let rest := run r.1 ops
     (rest.1, r.2.evicts ++ rest.2)
 
-/-- the gate list the model places before the `Evict` call on the reservation-first path, in order
-    (tied to the source by Ties/C17.lean) -/
-def gateList : List String :=
-  ["paused", "terminal", "abortJobIfTimeout", "preparePendingJob", "requeueJobIfObjectLimiterFailed", "directMode",
-   "noReservationRef", "setReservationOrder", "handleReservationCreateSuccess", "GetReservation", "IsNotFound",
-   "syncReservationScheduleFailed", "IsReservationPending", "IsReservationExpired", "IsReservationScheduled",
-   "prepareJobWithReservationScheduleSuccess", "IsMigratePendingPod", "evictPod"]
+/-! ### guard order (tied to the source by Ties/C17.lean)
 
-/-- the early exits inside `evictPod` that precede `evictorInterpreter.Evict` -/
-def evictGateList : List String :=
-  ["evictionConditionTrue", "podGet", "podNotFoundOrReplaced", "reasonEvicting", "abortJobIfReservationBoundByAnotherPod", "Evict"]
+Each entry: a gate as it appears in the Go source (a called function, or a `job.…`/`cond.…` selector tested in
+an if-condition) and whether it is an early exit (a `return` follows before the next gate).  The lists are what
+the model's stage order assumes; `harness/extract/facts_c17.go` regenerates them from the current source. -/
+
+/-- `doMigrate`, reservation-first path up to the `evictPod` call; in model terms:
+    paused · terminal phase · abortIfTimeout · (phase test of) preparePending · limiterRequeue · direct mode ·
+    no ReservationRef ⇒ createReservation · setReservationOrder · ReservationCreated=True · reservation lookup /
+    missing · syncScheduleFailed · resvPending · resvExpired · resvScheduled/preemptGate · prepareScheduleSuccess ·
+    pendingMode ⇒ waitPendingPod · evictPod -/
+def gateList : List (String × Bool) :=
+  [("job.Spec.Paused", true), ("job.Status.Phase", true), ("abortJobIfTimeout", true), ("job.Status.Phase", false),
+   ("preparePendingJob", true), ("requeueJobIfObjectLimiterFailed", true), ("job.Spec.Mode", true),
+   ("job.Spec.ReservationOptions", true), ("setReservationOrder", true), ("handleReservationCreateSuccess", true),
+   ("GetReservation", false), ("IsNotFound", true), ("syncReservationScheduleFailed", true),
+   ("IsReservationPending", true), ("IsReservationExpired", true), ("IsReservationScheduled", true),
+   ("prepareJobWithReservationScheduleSuccess", true), ("IsMigratePendingPod", true), ("evictPod", false)]
+
+/-- `evictPod` up to the `evictorInterpreter.Evict` call: Eviction=True ⇒ done · pod lookup · not found / replaced
+    (⇒ abort or EvictComplete) · reason Evicting ⇒ requeue · boundByOther · (default DeleteOptions) · Evict -/
+def evictGateList : List (String × Bool) :=
+  [("GetCondition", false), ("cond.Status", true), ("Get", false), ("IsNotFound", false), ("job.Spec.PodRef", false),
+   ("job.Status.Status", true), ("cond.Reason", true), ("abortJobIfReservationBoundByAnotherPod", true),
+   ("job.Spec.DeleteOptions", false), ("Evict", false)]
+
+/-- `prepareJobWithReservationScheduleSuccess`: the two early returns (no node / node already recorded;
+    ReservationScheduled=True) and the same-node abort precede the write that records the node -/
+def nodeCheckGateList : List (String × Bool) :=
+  [("GetScheduledNodeName", false), ("job.Status.NodeName", true), ("GetCondition", false), ("cond.Status", true),
+   ("abortJobIfReserveOnSameNode", true), ("updateCondition", false)]
 
 end KoordVerif.C17
